@@ -468,7 +468,24 @@ func (p *Packer) Unpack(r io.Reader, dst string) error {
 			if err != nil {
 				return &IllegalSlugError{Err: err}
 			}
-			if ok, err := p.validSymlink(dst, linkName, header.Linkname); ok {
+			ok, err := p.validSymlink(dst, linkName, header.Linkname)
+			if ok && filepath.IsAbs(header.Linkname) {
+				// Only relative targets are supported. An absolute target is
+				// accepted when the caller allow-listed it, but not because it
+				// happens to point into dst: it stops doing so when dst moves.
+				absDst, absErr := filepath.Abs(dst)
+				if absErr != nil {
+					return fmt.Errorf("failed making path %q absolute: %w", dst, absErr)
+				}
+				if !p.allowedSymlinkTarget(absDst, filepath.Clean(header.Linkname)) {
+					ok = false
+					err = &IllegalSlugError{
+						Err: fmt.Errorf("invalid symlink (%q -> %q) has absolute target",
+							header.Name, header.Linkname),
+					}
+				}
+			}
+			if ok {
 				// Create the symlink.
 				if err = os.Symlink(header.Linkname, info.Path); err != nil {
 					return fmt.Errorf("failed creating symlink (%q -> %q): %w",
@@ -576,24 +593,8 @@ func (p *Packer) validSymlink(root, path, target string) (bool, error) {
 	}
 
 	// The link target is outside of root. Check if it is allowed.
-	for _, prefix := range p.allowSymlinkTargets {
-		// Ensure prefix is absolute.
-		if !filepath.IsAbs(prefix) {
-			prefix = filepath.Join(absRoot, prefix)
-		}
-
-		// Exact match is allowed.
-		if absTarget == prefix {
-			return true, nil
-		}
-
-		// Prefix match of a directory is allowed.
-		if !strings.HasSuffix(prefix, "/") {
-			prefix += "/"
-		}
-		if strings.HasPrefix(absTarget, prefix) {
-			return true, nil
-		}
+	if p.allowedSymlinkTarget(absRoot, absTarget) {
+		return true, nil
 	}
 
 	return false, &IllegalSlugError{
@@ -602,6 +603,31 @@ func (p *Packer) validSymlink(root, path, target string) (bool, error) {
 			path, target,
 		),
 	}
+}
+
+// allowedSymlinkTarget reports whether the absolute, cleaned target is one of
+// the allow-listed symlink targets or lies below one of them.
+func (p *Packer) allowedSymlinkTarget(absRoot, absTarget string) bool {
+	for _, prefix := range p.allowSymlinkTargets {
+		// Ensure prefix is absolute.
+		if !filepath.IsAbs(prefix) {
+			prefix = filepath.Join(absRoot, prefix)
+		}
+
+		// Exact match is allowed.
+		if absTarget == prefix {
+			return true
+		}
+
+		// Prefix match of a directory is allowed.
+		if !strings.HasSuffix(prefix, "/") {
+			prefix += "/"
+		}
+		if strings.HasPrefix(absTarget, prefix) {
+			return true
+		}
+	}
+	return false
 }
 
 // checkFileMode is used to examine an os.FileMode and determine if it should
